@@ -141,6 +141,15 @@ def infoPhase (c : Cfg) (s : State) (rest : List Nat) : Phase :=
   | [] => advance c s 0 1
   | _ => .info rest
 
+/-- The connection id as the acceptor decodes it from the hello word: the low
+byte.  `dial` refuses ids above 0xff, so for every id that is dialled the
+acceptor sees the id itself (`helloId_of_le`); this is where the bound
+`m ≤ 256` of the theorems comes from. -/
+def helloId (k : Nat) : Nat := k % 256
+
+theorem helloId_of_le (k : Nat) (h : ¬ 0xff < k) : helloId k = k := by
+  unfold helloId; omega
+
 inductive Ev where
   /-- peer i: `Join` (listen, dial the leader, store `Conns[0]`) -/
   | join (i : Nat)
@@ -281,12 +290,15 @@ def step (c : Cfg) (s : State) : Ev → Option State
         -- connection refused
         some { s with bad := true }
       else
+        -- the hello carries the connection id in ONE byte (`connMagic | (connID & 0xff)`,
+        -- decoded by `int(byte(magic))`): the acceptor sees `helloId k`, the dialler
+        -- stores under `k`
         match s.conn i j k with
         | some _ =>
           -- hello sent, then SetConn: "connection already set"
-          some { s with pend := upd3 s.pend j i k true, bad := true }
+          some { s with pend := upd3 s.pend j i (helloId k) true, bad := true }
         | none =>
-          some { s with pend := upd3 s.pend j i k true,
+          some { s with pend := upd3 s.pend j i (helloId k) true,
                         conn := upd3 s.conn i j k (some ⟨i, j, k⟩),
                         phase := upd s.phase i (.run k rest) }
     | _ => none
